@@ -505,6 +505,7 @@ struct Env {
     History h;
     h.weak = ctx.weak;
     uint64_t blocks_mid = 0, blocks_end = 0, threads_between = 0;
+    int64_t slots_mid = -1, slots_end = -1;
     int rounds = mode == 0 ? 1 : 2 * rng.range(3, 5);
     int total_threads = 0;
     std::vector<Worker> keep;
@@ -575,10 +576,14 @@ struct Env {
         uint64_t pending = L.undestroyed_nodes();
         uint64_t live = xrt::heap_live_blocks();
         uint64_t bookkeeping = live > pending ? live - pending : 0;
-        if (round == rounds / 2 - 1)
+        if (round == rounds / 2 - 1) {
           blocks_mid = bookkeeping;
-        if (round == rounds - 1)
+          slots_mid = (int64_t)xv::declared_slots<XV_RECL>();
+        }
+        if (round == rounds - 1) {
           blocks_end = bookkeeping;
+          slots_end = (int64_t)xv::declared_slots<XV_RECL>();
+        }
       }
     }
     {
@@ -616,6 +621,17 @@ struct Env {
                  fmt("live allocations at quiescent points grew from %" PRIu64 " (after %d rounds) to %" PRIu64
                      " (after %d rounds) while %" PRIu64 " threads came and went",
                      blocks_mid, rounds / 2, blocks_end, rounds, threads_between));
+      // at a quiescent point every worker has exited: the published number of active hazard pointers / eras is what the records of
+      // exited threads still contribute - it must not grow with the number of threads that came and went
+      if (slots_end >= 0) {
+        counters().add("declared_slot_samples");
+        counters().max("max_declared_slots_at_quiescence", (uint64_t)slots_end);
+        if (slots_end > slots_mid && (uint64_t)(slots_end - slots_mid) >= threads_between)
+          out.fail("C17", "declared-slots-growth",
+                   fmt("the number of active hazard pointers / eras published by the allocation strategy at quiescent points (no worker alive) grew "
+                       "from %" PRId64 " (after %d rounds) to %" PRId64 " (after %d rounds) while %" PRIu64 " threads came and went",
+                       slots_mid, rounds / 2, slots_end, rounds, threads_between));
+      }
     }
   }
 };
